@@ -69,8 +69,9 @@ def alphabet(st, hist):
     # a window column that was hidden meanwhile, used again through the reference taken
     # from the intermediate table where it was visible (disabled by the model when that
     # table has no visible column w)
-    reuse = [["mutate", [["v3", ["add", ["col", "at", i, "w"], lit(0)]]]] for i in range(1, len(hist) - 1)
-             if hist[i][0] == "mutate" and hist[i][1][0][0] == "w"]
+    # (the same for the constant column c)
+    reuse = [["mutate", [["v3", ["add", ["col", "at", i, hist[i][1][0][0]], lit(0)]]]] for i in range(1, len(hist) - 1)
+             if hist[i][0] == "mutate" and hist[i][1][0][0] in ("w", "c")]
     if len(hist) > 1 and hist[-1][0] == "mutate" and hist[-1][1][0][0] == "v3":
         return []  # the probe ends the history
     if len(hist) > 1 and hist[-1][0] == "alias":
